@@ -43,6 +43,7 @@ func runC01(c *Ctx) {
 	c01DirectiveChain(c)
 	c01Layout(c)
 	c01SelectionsPrivate(c)
+	scanTotal(c)
 }
 
 // c01SelectionsPrivate: the merged sub-selection of a collected field is a slice private to that CollectFields call.  Fields
